@@ -135,6 +135,11 @@ EXTRA = [
     # a union inside a record that is itself reached through an un-hinted union (options must reach the inner union)
     {"type": "record", "name": "Doc", "fields": [{"name": "body", "type": ["null", {"type": "record", "name": "Body", "fields": [
         {"name": "tags", "type": ["string", {"type": "array", "items": "string"}]}, {"name": "m", "type": ["null", {"type": "map", "values": ["int", {"type": "array", "items": "int"}]}], "default": None}]}]}]},
+    # two positions of the same record type (a datum may hold ONE Python object at both)
+    {"type": "record", "name": "Person", "fields": [
+        {"name": "home", "type": {"type": "record", "name": "Addr", "fields": [{"name": "street", "type": "string"}, {"name": "tags", "type": {"type": "array", "items": "string"}}]}},
+        {"name": "work", "type": "Addr"}, {"name": "others", "type": {"type": "array", "items": "Addr"}}, {"name": "by_name", "type": {"type": "map", "values": "Addr"}}]},
+    ["null"],
     {"type": "record", "name": "BytesDefaults", "fields": [
         {"name": "k", "type": "int"}, {"name": "b", "type": "bytes", "default": "\u00ff\u0001"},
         {"name": "f", "type": {"type": "fixed", "name": "F2", "size": 2}, "default": "ab"}]},
@@ -182,6 +187,23 @@ def check(fa, res, raw, parsed, node, defs, d, seen, writer_state):
                 outcome = (type(e).__name__, str(e)[:100])
             if want and outcome != ("returned", True) or (not want and outcome[0] != "ValidationError"):
                 res.add(Violation("c10.raise-mode", f"raise-mode-disagrees:{outcome[0]}", f"raise_errors=True gave {outcome}, non-raising mode gave {want} | {short(info, 500)}", info))
+            # validate_many over [d] and [good, d]: the same verdicts, in both modes
+            for recs_, label_ in (([d], "alone"), ([writer_state["good"], d], "after-a-good-record")):
+                try:
+                    vm = fa.validation.validate_many(recs_, parsed, raise_errors=False, strict=strict, disable_tuple_notation=disable)
+                except Exception as e:
+                    vm = f"raised {type(e).__name__}"
+                try:
+                    vmr = ("returned", fa.validation.validate_many(recs_, parsed, raise_errors=True, strict=strict, disable_tuple_notation=disable))
+                except ValidationError:
+                    vmr = ("ValidationError", None)
+                except Exception as e:
+                    vmr = (type(e).__name__, str(e)[:80])
+                good_ok = label_ == "alone" or writer_state.get("good_ok", {}).get(strict, True)
+                want_many = want and good_ok
+                if vm is not want_many or (want_many and vmr != ("returned", True)) or (not want_many and vmr[0] != "ValidationError"):
+                    res.add(Violation("c10.validate-many", f"validate-many-disagrees:{label_}", f"validate_many({label_}) = {vm!r} / raising mode {vmr}, validate says {want} | {short(info, 400)}", info))
+                    break
             if strict:
                 continue
             if want:
@@ -279,12 +301,17 @@ def run_unit(i, tier):
         return res
     base = good[0][0]
     seen = set()
-    ws = {"good": base}
+    ws = {"good": base, "good_ok": {st: conform.conforms(node, defs, base, st, True) for st in (False, True)}}
     conforming = [d for d, c in alphabet.data_for(node, defs, 1, hints=True, big=(tier == "thorough"))]
     if isinstance(raw, list) and any(isinstance(b, dict) and b.get("name") == "AllDefaults" for b in raw):
         conforming += [{}, {"-type": "AllDefaults2"}, {"-type": "AllDefaults"}, {"note": "x"}, {"reason": "y"}]
     if isinstance(raw, dict) and raw.get("name") == "HoldsAllDefaults":
         conforming += [{"u": {}}, {"u": {"-type": "Deleted"}}, {"u": {"-type": "Created"}}, {"u": ("Deleted", {})}]
+    if isinstance(raw, dict) and raw.get("name") == "Person":
+        addr = {"street": "s", "tags": ["t"]}
+        tags = ["shared"]
+        conforming += [{"home": addr, "work": addr, "others": [addr, addr], "by_name": {"a": addr, "b": addr}},
+                       {"home": {"street": "a", "tags": tags}, "work": {"street": "b", "tags": tags}, "others": [], "by_name": {}}]
     if isinstance(raw, dict) and raw.get("name") == "Doc":
         # tuples that are plain sequences when tuple notation is disabled (and unknown hints when it is not)
         conforming += [{"body": {"tags": ("a", "b")}}, {"body": {"tags": ("only",)}}, {"body": {"tags": ("a", "b", "c")}}, {"body": {"tags": "s", "m": {"k": (1, 2)}}},
